@@ -226,9 +226,29 @@ class TypeGen:
         a = wrap(wide if r.random() < 0.8 else ["AnyOf", [wide, ["Null"]]])
         return a, ["AnyOf", [wrap(lits(sset)) for sset in alts]], "literal-cover"
 
+    def index_split_pair(self, names):
+        """an object type with a string index signature over a union against the union of the object types with one member each
+        (an object escapes the alternatives through different extra keys): {[k]: A | B} vs {[k]: A} | {[k]: B}, with and without
+        declared properties, the index value optional or not, sometimes an alternative that does cover"""
+        r = self.r
+        base = [["String"], ["Number"], ["Boolean"], ["Null"], lit_s("a"), lit_n(1)]
+        k = r.randrange(2, 4)
+        parts = r.sample(base, k)
+        declared = [["id", [True, r.choice(base)]]] if r.random() < 0.4 else []
+        req = r.random() < 0.8
+        def obj(v, decl=True): return ["Object", list(declared) if decl else [], [["String"], [req, v]]]
+        a = obj(["AnyOf", parts])
+        alts = [obj(p) for p in parts]
+        if r.random() < 0.25: alts.append(obj(["AnyOf", parts]))               # covered after all
+        if r.random() < 0.2: alts[0] = obj(["AnyOf", parts[:2]])                 # a wider first alternative
+        if r.random() < 0.2: alts.append(["Object", [["zz", [False, parts[0]]]], None])
+        r.shuffle(alts)
+        return a, ["AnyOf", alts], "index-split"
+
     def pair(self, names):
         r = self.r
         if r.random() < 0.12: return self.split_pair(names)
+        if r.random() < 0.05: return self.index_split_pair(names)
         if r.random() < 0.06: return self.literal_cover_pair(names)
         if r.random() < 0.05: return self.list_intersection_pair(names)
         if r.random() < 0.06: return self.tail_escape_pair(names)
